@@ -514,3 +514,54 @@ class Result:
         d = {"what": what, "case": case, "impl": impl, "model": model}
         d.update(extra)
         self.disagreements.append(d)
+
+
+# ---- environment independence: the process time zone ---------------------------------------------------------------
+# The tools must behave identically whatever the time zone of the process that runs them (the unit tests, CI and this
+# sandbox all run in UTC, where `astimezone()`, `time.mktime`, `datetime.fromtimestamp` without tz … are harmless).
+
+# (IANA name, POSIX TZ string used when /usr/share/zoneinfo lacks the name, UTC offset in seconds on 16 January 2030)
+TZ_ZONES = [
+    ("UTC", "UTC0", 0),
+    ("America/New_York", "EST5EDT,M3.2.0,M11.1.0", -5 * 3600),
+    ("Australia/Lord_Howe", "<+1030>-10:30<+11>-11,M10.1.0,M4.1.0", 11 * 3600),
+    ("Asia/Kolkata", "IST-5:30", 5 * 3600 + 1800),
+    ("Europe/Berlin", "CET-1CEST,M3.5.0,M10.5.0/3", 3600),
+]
+TZ_PROBE = 1_894_752_000  # 2030-01-16T00:00:00Z
+
+
+class ProcessTZ:
+    """`with ProcessTZ(*TZ_ZONES[i]):` switches the time zone of THIS process (TZ + tzset) and puts it back afterwards.
+    Raises if the switch has no effect (a stream run under it would be vacuous)."""
+
+    def __init__(self, name: str, posix: str, offset: int) -> None:
+        self.name = name
+        self.value = name if Path("/usr/share/zoneinfo", name).exists() else posix
+        self.posix, self.offset = posix, offset
+
+    def __enter__(self) -> "ProcessTZ":
+        import time
+
+        self.saved = os.environ.get("TZ")
+        for value in (self.value, self.posix):
+            os.environ["TZ"] = value
+            time.tzset()
+            if time.localtime(TZ_PROBE).tm_gmtoff == self.offset:
+                self.value = value
+                return self
+        self.__exit__()
+        raise RuntimeError(f"cannot switch the process time zone to {self.value}: the environment-independence stream would be vacuous")
+
+    def __exit__(self, *a: Any) -> None:
+        import time
+
+        if self.saved is None:
+            os.environ.pop("TZ", None)
+        else:
+            os.environ["TZ"] = self.saved
+        time.tzset()
+
+
+def non_utc_zones() -> list[tuple[str, str, int]]:
+    return TZ_ZONES[1:]
